@@ -1,4 +1,5 @@
 import CstModel.Props.C09
+import CstModel.Props.GenBuilder
 open Cst.C09
 #print axioms wf_new
 #print axioms wf_start
@@ -18,3 +19,11 @@ open Cst.C09
 #print axioms keeps_token
 #print axioms keeps_finish
 #print axioms keeps_revert
+#print axioms Cst.Gen.b_checkpoint
+#print axioms Cst.Gen.b_checkpoint_model
+#print axioms Cst.Gen.b_start_node
+#print axioms Cst.Gen.b_start_node_model
+#print axioms Cst.Gen.b_revert_to_raw
+#print axioms Cst.Gen.b_revert_to
+#print axioms Cst.Gen.b_start_node_at_raw
+#print axioms Cst.Gen.b_start_node_at
